@@ -36,6 +36,7 @@ func c17Run(r *Run) {
 	info := rp.TypesInfo
 	isReflectType := func(t types.Type) bool { return isNamed(t, "reflect", "Type") }
 	isReflectValue := func(t types.Type) bool { return isNamed(t, "reflect", "Value") }
+	c17ZeroTests(r, rp)
 	// shape-independent form of KIND: in every converter (a function with a reflect.Type parameter whose
 	// first result is a reflect.Value) a returned value built with reflect.ValueOf is converted to that
 	// type parameter; unsupported kinds end in an error
@@ -810,4 +811,104 @@ func c17KindTables(r *Run, rp *packages.Package) {
 			return true
 		})
 	}
+}
+
+// c17ZeroTests: a Go result is "nothing" only when it is invalid or nil. reflect.Value.IsZero is also true
+// for 0, 0.0, "" and false, so a zero test that decides what the script receives turns those results
+// into something else (null). In the bridge (package runtime) every IsZero() on a reflect.Value must sit
+// under a test that restricts the value to a kind that can be nil (Ptr, Interface, Map, Slice, Func,
+// Chan, UnsafePointer) — in the same condition or an enclosing switch/if on Kind(). One obligation per
+// function that handles reflect values.
+func c17ZeroTests(r *Run, rp *packages.Package) {
+	r.curRule = "C17-EXH"
+	info := rp.TypesInfo
+	nilable := map[string]bool{"Ptr": true, "Pointer": true, "Interface": true, "Map": true, "Slice": true, "Func": true, "Chan": true, "UnsafePointer": true}
+	for _, fd := range funcDecls(rp) {
+		if fd.Body == nil {
+			continue
+		}
+		handles := false
+		ast.Inspect(fd, func(n ast.Node) bool {
+			if e, ok := n.(ast.Expr); ok {
+				if t := info.TypeOf(e); t != nil && isNamed(t, "reflect", "Value") {
+					handles = true
+				}
+			}
+			return !handles
+		})
+		if !handles {
+			continue
+		}
+		parents := map[ast.Node]ast.Node{}
+		var stack []ast.Node
+		ast.Inspect(fd.Body, func(n ast.Node) bool {
+			if n == nil {
+				stack = stack[:len(stack)-1]
+				return true
+			}
+			if len(stack) > 0 {
+				parents[n] = stack[len(stack)-1]
+			}
+			stack = append(stack, n)
+			return true
+		})
+		mentionsNilableKind := func(n ast.Node) bool {
+			found := false
+			ast.Inspect(n, func(m ast.Node) bool {
+				if se, ok := m.(*ast.SelectorExpr); ok && nilable[se.Sel.Name] {
+					if id, ok := ast.Unparen(se.X).(*ast.Ident); ok {
+						if pn, ok := info.Uses[id].(*types.PkgName); ok && pn.Imported().Path() == "reflect" {
+							found = true
+						}
+					}
+				}
+				return !found
+			})
+			return found
+		}
+		bad := token.NoPos
+		ast.Inspect(fd.Body, func(n ast.Node) bool {
+			c, ok := n.(*ast.CallExpr)
+			if !ok || len(c.Args) != 0 {
+				return true
+			}
+			se, ok := ast.Unparen(c.Fun).(*ast.SelectorExpr)
+			if !ok || se.Sel.Name != "IsZero" || !isNamed(info.TypeOf(se.X), "reflect", "Value") {
+				return true
+			}
+			guarded := false
+			for p := parents[c]; p != nil; p = parents[p] {
+				switch x := p.(type) {
+				case *ast.BinaryExpr:
+					if x.Op == token.LAND && mentionsNilableKind(x) {
+						guarded = true
+					}
+				case *ast.IfStmt:
+					if mentionsNilableKind(x.Cond) && !(x.Else != nil && within(x.Else, c)) {
+						guarded = true
+					}
+				case *ast.CaseClause:
+					for _, e := range x.List {
+						if mentionsNilableKind(e) {
+							guarded = true
+						}
+					}
+				}
+			}
+			if !guarded && bad == token.NoPos {
+				bad = c.Pos()
+			}
+			return true
+		})
+		key := funcKey(rp, fd) + "#nothing-means-nil"
+		if bad != token.NoPos {
+			r.bad(key, bad, "a reflect.Value is tested with IsZero() without being restricted to a kind that can be nil: IsZero is true for 0, 0.0, \"\" and false too, so such results (or arguments) are treated as absent — a Go function returning 0 or \"\" gives the script null")
+		} else {
+			r.ok(key, fd.Pos(), "no zero-value test decides what crosses the boundary (absence is tested with IsValid/IsNil only)")
+		}
+	}
+}
+
+func within(outer ast.Node, inner ast.Node) bool {
+	return outer != nil && inner != nil && outer.Pos() <= inner.Pos() && inner.End() <= outer.End()
 }
